@@ -1,13 +1,14 @@
 (* C09, part 2: the d = 2 shortcut of calculate_cumulant_function against the general
    trace-tensor branch on the normalised Pauli basis, for ALL decay amplitudes and frequency
-   shifts:   shortcut(Gamma, Delta) = general(Gamma^T, Delta).
-   Hence shortcut = general iff Gamma is symmetric (auto-correlations); for cross-correlated
-   noise (Gamma_ab,kl not symmetric in kl) the shortcut returns the transposed first-order block
-   (refuted with a witness).  The guard of the shortcut trusts the btype label: refuted with a
-   complete orthonormal Hermitian non-traceless d = 2 basis.                                   *)
+   shifts, first and second order:   shortcut(Gamma, Delta) = general(Gamma, Delta)
+   (after fix 72be0f3: off-diagonal block from the transposed decay amplitudes).
+   The pre-fix shortcut (untransposed copy) is kept as [cumulant_shortcut_prefix_fn]:
+   prefix(Gamma, Delta) = general(Gamma^T, Delta), equal to the formula iff Gamma is symmetric;
+   [shortcut_prefix_cross_refuted] is the witness for cross-correlated noise / pulse-correlation
+   pairs (Gamma_ab,kl not symmetric in kl).                                                    *)
 From Coq Require Import ZArith Reals Lra Lia List Bool Setoid Morphisms.
 From FF Require Import Base.Ops Inst.RInst Base.RAlg Base.FMat Model.Numeric Model.Decay Model.Cumulant
-     Proofs.Trapz Proofs.TraceId Proofs.PauliEx Proofs.CumulantAlg.
+     Proofs.Trapz Proofs.TraceId Proofs.PauliOnb Proofs.CumulantAlg.
 Import ListNotations.
 Local Open Scope R_scope.
 
@@ -58,19 +59,17 @@ Proof.
   - ring.
 Qed.
 
-(* ---------- general branch on the Pauli basis = shortcut on the transposed Gamma ---------- *)
-Definition rm_transpose (n : nat) (G : RMr) : RMr := rmbuild n n (fun k l => rmget RO G l k).
-
+(* ---------- general branch on the Pauli basis = shortcut, all Gamma, Delta ---------- *)
 Ltac four i := destruct i as [|[|[|[|i]]]]; [ | | | | exfalso; lia].
 
-Theorem general_pauli_eq_shortcut_transposed second (G D : RMr) i j : (i < 4)%nat -> (j < 4)%nat ->
-  cumulant_general_fn RO 4 T4tab second G D i j = cumulant_shortcut_fn RO 4 second (rm_transpose 4 G) D i j.
+Theorem general_pauli_eq_shortcut second (G D : RMr) i j : (i < 4)%nat -> (j < 4)%nat ->
+  cumulant_general_fn RO 4 T4tab second G D i j = cumulant_shortcut_fn RO 4 second G D i j.
 Proof.
   intros Hi Hj.
   four i; four j; destruct second;
     unfold cumulant_general_fn, cumulant_shortcut_fn, K1_entry, K2_entry, contract, half, masked_diag_sum, diag_idx,
-           rm_transpose, rmget, rmbuild, T4tab, om, mt, rcx, ci';
-    simpl; unfold build; simpl; csimp; field.
+           rmget, T4tab, om, mt, rcx, ci';
+    simpl; csimp; field.
 Qed.
 
 (* the model's own trace tensor on the Pauli basis *)
@@ -94,52 +93,72 @@ Proof.
   rewrite (contract_ext n D (fun k l => Tr l k i j) (fun k l => Tr' l k i j)) by (intros; apply H; auto).
   reflexivity.
 Qed.
+Lemma rmget_rmbuild m n (f : nat -> nat -> R) i j : (i < m)%nat -> (j < n)%nat -> rmget RO (rmbuild m n f) i j = f i j.
+Proof. intros. unfold rmget, rmbuild. rewrite !nth_build by auto. reflexivity. Qed.
 
-(* shortcut_general_transposed: entries of the two branches of the MODEL on the Pauli basis *)
-Theorem shortcut_general_transposed second (G D : RMr) i j : (i < 4)%nat -> (j < 4)%nat ->
-  rmget RO (cumulant_general RO 4 (four_traces_arr RO 2 (pair_products RO 2 pauli_basis) 4) second G D) i j =
-  rmget RO (cumulant_shortcut RO 4 second (rm_transpose 4 G) D) i j.
+(* shortcut_eq_general: entries of the two branches of the MODEL on the Pauli basis, ALL Gamma, Delta *)
+Theorem shortcut_eq_general second (G D : RMr) i j : (i < 4)%nat -> (j < 4)%nat ->
+  rmget RO (cumulant_shortcut RO 4 second G D) i j =
+  rmget RO (cumulant_general RO 4 (four_traces_arr RO 2 (pair_products RO 2 pauli_basis) 4) second G D) i j.
 Proof.
-  intros Hi Hj. unfold cumulant_general, cumulant_shortcut, rmget, rmbuild. rewrite !nth_build by auto.
+  intros Hi Hj. unfold cumulant_general, cumulant_shortcut. rewrite !rmget_rmbuild by auto.
   rewrite (cumulant_general_fn_ext 4 _ T4tab) by (auto; intros; apply model_traces_pauli; auto).
-  apply general_pauli_eq_shortcut_transposed; auto.
+  symmetry. apply general_pauli_eq_shortcut; auto.
 Qed.
 
-(* shortcut_eq_general: with the symmetry hypothesis the proof needs (Gamma_kl = Gamma_lk: true for
-   auto-correlations, where Gamma_aa,kl = trapz Re(conj(B_ak) S_aa B_al) with real S_aa) *)
+(* ---------- the pre-fix shortcut (commit before 72be0f3): untransposed off-diagonal block ---------- *)
+Definition cumulant_shortcut_prefix_fn (n : nat) (second : bool) (G D : RMr) (i j : nat) : R :=
+  if (Nat.eqb i 0 || Nat.eqb j 0) then 0 else
+  let first := if Nat.eqb i j then - masked_diag_sum RO n (diag_idx i) G else rmget RO G i j in
+  if second then first - rmget RO D i j + rmget RO D j i else first.
+Definition rm_transpose (n : nat) (G : RMr) : RMr := rmbuild n n (fun k l => rmget RO G l k).
+Lemma rmget_transpose n (G : RMr) k l : (k < n)%nat -> (l < n)%nat -> rmget RO (rm_transpose n G) k l = rmget RO G l k.
+Proof. intros. unfold rm_transpose. rewrite rmget_rmbuild by auto. reflexivity. Qed.
 Definition rm_symmetric (n : nat) (G : RMr) : Prop := forall k l, (k < n)%nat -> (l < n)%nat -> rmget RO G k l = rmget RO G l k.
+
+(* prefix(Gamma) = fixed(Gamma^T) *)
+Lemma shortcut_prefix_is_transposed n second (G D : RMr) i j : (i < n)%nat -> (j < n)%nat ->
+  cumulant_shortcut_prefix_fn n second G D i j = cumulant_shortcut_fn RO n second (rm_transpose n G) D i j.
+Proof.
+  intros Hi Hj. unfold cumulant_shortcut_prefix_fn, cumulant_shortcut_fn.
+  rewrite rmget_transpose by auto.
+  replace (masked_diag_sum RO n (diag_idx i) (rm_transpose n G)) with (masked_diag_sum RO n (diag_idx i) G).
+  reflexivity.
+  unfold masked_diag_sum. apply sumn_ext. intros m Hm. rewrite rmget_transpose by auto. reflexivity.
+Qed.
+(* hence the pre-fix shortcut is the formula applied to the transposed decay amplitudes ... *)
+Theorem shortcut_prefix_general_transposed second (G D : RMr) i j : (i < 4)%nat -> (j < 4)%nat ->
+  cumulant_shortcut_prefix_fn 4 second G D i j =
+  rmget RO (cumulant_general RO 4 (four_traces_arr RO 2 (pair_products RO 2 pauli_basis) 4) second (rm_transpose 4 G) D) i j.
+Proof.
+  intros Hi Hj. rewrite shortcut_prefix_is_transposed by auto.
+  rewrite <- shortcut_eq_general by auto. unfold cumulant_shortcut. rewrite rmget_rmbuild by auto. reflexivity.
+Qed.
+(* ... equal to the formula under the symmetry hypothesis (auto-correlations) ... *)
 Lemma shortcut_fn_ext n second (G G' D : RMr) i j : (i < n)%nat -> (j < n)%nat ->
   (forall k l, (k < n)%nat -> (l < n)%nat -> rmget RO G k l = rmget RO G' k l) ->
   cumulant_shortcut_fn RO n second G D i j = cumulant_shortcut_fn RO n second G' D i j.
 Proof.
-  intros Hi Hj H. unfold cumulant_shortcut_fn. rewrite (H i j) by auto.
+  intros Hi Hj H. unfold cumulant_shortcut_fn. rewrite (H j i) by auto.
   replace (masked_diag_sum RO n (diag_idx i) G) with (masked_diag_sum RO n (diag_idx i) G'); [reflexivity|].
   unfold masked_diag_sum. apply sumn_ext. intros m Hm. rewrite H by auto. reflexivity.
 Qed.
-Lemma rmget_transpose n (G : RMr) k l : (k < n)%nat -> (l < n)%nat -> rmget RO (rm_transpose n G) k l = rmget RO G l k.
-Proof. intros. unfold rm_transpose, rmget at 1, rmbuild. rewrite !nth_build by auto. reflexivity. Qed.
-
-Lemma rmget_rmbuild m n (f : nat -> nat -> R) i j : (i < m)%nat -> (j < n)%nat -> rmget RO (rmbuild m n f) i j = f i j.
-Proof. intros. unfold rmget, rmbuild. rewrite !nth_build by auto. reflexivity. Qed.
-
-Theorem shortcut_eq_general second (G D : RMr) i j : (i < 4)%nat -> (j < 4)%nat -> rm_symmetric 4 G ->
-  rmget RO (cumulant_shortcut RO 4 second G D) i j =
+Theorem shortcut_prefix_eq_general_symmetric second (G D : RMr) i j : (i < 4)%nat -> (j < 4)%nat -> rm_symmetric 4 G ->
+  cumulant_shortcut_prefix_fn 4 second G D i j =
   rmget RO (cumulant_general RO 4 (four_traces_arr RO 2 (pair_products RO 2 pauli_basis) 4) second G D) i j.
 Proof.
-  intros Hi Hj Hs. rewrite shortcut_general_transposed by auto.
-  unfold cumulant_shortcut. rewrite !rmget_rmbuild by auto.
-  apply shortcut_fn_ext; auto. intros k l Hk Hl. rewrite rmget_transpose by auto. apply Hs; auto.
+  intros Hi Hj Hs. rewrite shortcut_prefix_is_transposed by auto.
+  rewrite <- shortcut_eq_general by auto. unfold cumulant_shortcut. rewrite rmget_rmbuild by auto.
+  apply shortcut_fn_ext; auto. intros k l Hk Hl. rewrite rmget_transpose by auto. symmetry. apply Hs; auto.
 Qed.
-
-(* without the symmetry hypothesis: refuted (decay amplitudes of a cross-correlated pair) *)
+(* ... and refuted without it (decay amplitudes of a cross-correlated pair / of two different pulses) *)
 Definition Gcross : RMr := [[0;0;0;0]; [0;0;1;0]; [0;0;0;0]; [0;0;0;0]].
-Theorem shortcut_cross_refuted :
+Theorem shortcut_prefix_cross_refuted :
   exists (G D : RMr) i j, (i < 4)%nat /\ (j < 4)%nat /\
-    rmget RO (cumulant_shortcut RO 4 false G D) i j <>
+    cumulant_shortcut_prefix_fn 4 false G D i j <>
     rmget RO (cumulant_general RO 4 (four_traces_arr RO 2 (pair_products RO 2 pauli_basis) 4) false G D) i j.
 Proof.
   exists Gcross, Gcross, 1%nat, 2%nat. split. lia. split. lia.
-  rewrite shortcut_general_transposed by lia.
-  unfold cumulant_shortcut. rewrite !rmget_rmbuild by lia. unfold cumulant_shortcut_fn. simpl.
-  rewrite !rmget_transpose by lia. unfold rmget, Gcross. simpl. lra.
+  rewrite <- shortcut_eq_general by lia. unfold cumulant_shortcut. rewrite rmget_rmbuild by lia.
+  unfold cumulant_shortcut_prefix_fn, cumulant_shortcut_fn, rmget, Gcross. simpl. lra.
 Qed.
